@@ -137,6 +137,91 @@ func C04(c *fw.Ctx) {
 			}
 		}
 	}
+	// (a4) every statement form as a direct child of a function body, before and between the statements
+	// that follow it: the body is [S1, print, S2, return of what the forms declared or assigned]; S1, S2
+	// over every statement form of the grammar (each with 0, 1 or several declared names, with and without
+	// initialisers), the function called twice and from a second function
+	{
+		num := model.Num
+		forms := []struct {
+			name string
+			mk   func(v string, k float64) *model.N
+		}{
+			{"decl", func(v string, k float64) *model.N { return model.Var(v, num(k)) }},
+			{"decl-bare", func(v string, k float64) *model.N { return model.Var(v, nil) }},
+			{"decl-two", func(v string, k float64) *model.N {
+				return model.VarList([]string{v, v + "b"}, []*model.N{num(k), num(k + 1)})
+			}},
+			{"decl-two-mixed", func(v string, k float64) *model.N {
+				return model.VarList([]string{v, v + "b"}, []*model.N{nil, num(k)})
+			}},
+			{"decl-three", func(v string, k float64) *model.N {
+				return model.VarList([]string{v, v + "b", v + "c"}, []*model.N{num(k), model.Id(v), model.Bin("+", model.Id(v), model.Id(v+"b"))})
+			}},
+			{"assign", func(v string, k float64) *model.N { return model.ExprS(model.Asg("g", num(k))) }},
+			{"expr", func(v string, k float64) *model.N { return model.ExprS(model.Bin("+", num(k), num(1))) }},
+			{"call", func(v string, k float64) *model.N { return model.ExprS(model.CallN("note", num(k))) }},
+			{"print", func(v string, k float64) *model.N { return model.Print(num(k)) }},
+			{"block", func(v string, k float64) *model.N { return model.Block(model.Var(v, num(k)), model.Print(model.Id(v))) }},
+			{"block-empty", func(v string, k float64) *model.N { return model.Block() }},
+			{"if", func(v string, k float64) *model.N {
+				return model.If(model.Bin("<", model.Id("p"), num(k)), model.Block(T("then")), model.Block(T("else")))
+			}},
+			{"if-no-else", func(v string, k float64) *model.N {
+				return model.If(model.Bin("<", model.Id("p"), num(k)), model.Print(num(k)), nil)
+			}},
+			{"while", func(v string, k float64) *model.N {
+				return model.While(model.Bin("<", model.Id("g"), num(k)), model.Block(model.ExprS(model.Asg("g", model.Bin("+", model.Id("g"), num(1))))))
+			}},
+			{"while-break", func(v string, k float64) *model.N {
+				return model.While(model.Bool(true), model.Block(T("once"), model.Break()))
+			}},
+			{"for", func(v string, k float64) *model.N {
+				return model.For(model.Var(v, num(0)), model.Bin("<", model.Id(v), num(2)), model.Asg(v, model.Bin("+", model.Id(v), num(1))), model.Block(model.Print(model.Id(v))))
+			}},
+			{"for-continue", func(v string, k float64) *model.N {
+				return model.For(model.VarList([]string{v, v + "b"}, []*model.N{num(0), num(k)}), model.Bin("<", model.Id(v), num(2)), model.Asg(v, model.Bin("+", model.Id(v), num(1))), model.Block(model.Continue()))
+			}},
+			{"fun", func(v string, k float64) *model.N { return model.Fun(v+"f", nil, model.Return(num(k))) }},
+		}
+		declares := func(name string) []string {
+			switch name {
+			case "decl", "decl-bare":
+				return []string{""}
+			case "decl-two", "decl-two-mixed":
+				return []string{"", "b"}
+			case "decl-three":
+				return []string{"", "b", "c"}
+			}
+			return nil
+		}
+		for i, f1 := range forms {
+			for j, f2 := range forms {
+				if !c.Mine() {
+					continue
+				}
+				var res []*model.N
+				for _, s := range declares(f1.name) {
+					res = append(res, model.Id("u"+s))
+				}
+				for _, s := range declares(f2.name) {
+					res = append(res, model.Id("w"+s))
+				}
+				res = append(res, model.Id("g"), model.Id("p"))
+				body := []*model.N{f1.mk("u", float64(i+1)), T("between"), f2.mk("w", float64(10+j)), model.Return(model.Arr(res...)), T("never")}
+				prog := []*model.N{
+					model.Var("g", model.Num(0)),
+					model.Fun("note", []string{"x"}, model.Print(model.Id("x"))),
+					model.Fun("f", []string{"p"}, body...),
+					model.Fun("outer", nil, model.Var("r", model.CallN("f", model.Num(3))), model.Return(model.Id("r"))),
+					model.Print(model.CallN("f", model.Num(1))),
+					model.Print(model.CallN("f", model.Num(100))),
+					model.Print(model.CallN("outer")),
+				}
+				run("statement-forms-in-body|"+f1.name+"|"+f2.name, prog)
+			}
+		}
+	}
 	// (a1) a function that uses its own name as a variable while activations of it are pending: the body
 	// is three slots, each one of {nothing, print the name, assign the name, one deeper call (depth < 2),
 	// call through the name after assigning?}; called twice, then the name printed from outside; the same
